@@ -336,3 +336,43 @@ def add_disco_order(reg):
         decreases=lambda S, tree, mode: S.H.hgt(tree),
         solver_hints={"post.": {"cli_s": 30}},
     ))
+
+
+# ------------------------------------------------------------------------------------------------------------------
+# the three places that depend on the gap degree agree (lemma over the contracts, no code of its own):
+#   treeanalysis.gap_degree(tree) > 0
+#     <=>  treeoutput.brackets refuses the tree            (condition of its raises clause, contracts/c02.py)
+#     <=>  grammar.extract builds, for some constituent below the tree, a linearization with more than one argument
+#          (block contract C06.lemma.extract.lin_blocks: #arguments == set-based gap degree + 1)
+# ------------------------------------------------------------------------------------------------------------------
+def lemma_three_way(reg, repo):
+    from pyvc.heap import Heap
+    from contracts.common import preorder_facts, wf_theory
+    H = Heap.fresh("W")
+    tree = VRef(z3.Int("w_tree"))
+    G = VInt(z3.Int("w_gap_degree"))
+
+    class _S(object):
+        pass
+    S = _S()
+    S.H = S.old = H
+    gd = reg.get("trees.treeanalysis.gap_degree").ensures["maximum_over_nodes"](S, tree, G)
+    P = H.pre(tree)
+    linlen = z3.Function("w_lin_arguments", z3.IntSort(), z3.IntSort())
+    y, k = z3.Int("w_y"), z3.Int("w_k")
+    lin_contract = z3.ForAll([y], z3.Implies(z3.And(tobool(WF(H, VRef(y))), H.nchild_t(y) > 0),
+                                             linlen(y) == gapdeg(H, VRef(y)).t + 1))
+    base = [tree.t != 0, tobool(WF(H, tree)), tobool(wf_theory(H)), tobool(preorder_facts(H, tree)), tobool(gd),
+            lin_contract] + H.typing()
+    writer_refuses = z3.Exists([k], z3.And(0 <= k, k < P.n, gapdeg(H, P.get(k)).t > 0))
+    some_lin_discontinuous = z3.Exists([k], z3.And(0 <= k, k < P.n, H.nchild_t(P.get(k).t) > 0,
+                                                   linlen(P.get(k).t) > 1))
+    return [("gap_degree_positive_implies_writer_refuses", base + [G.t > 0], writer_refuses),
+            ("writer_refuses_implies_gap_degree_positive", base + [writer_refuses], G.t > 0),
+            ("gap_degree_positive_implies_some_linearization_has_several_arguments", base + [G.t > 0],
+             some_lin_discontinuous),
+            ("some_linearization_has_several_arguments_implies_gap_degree_positive", base + [some_lin_discontinuous],
+             G.t > 0)]
+
+
+LEMMAS["three_way"] = lemma_three_way
